@@ -254,9 +254,13 @@ func VerifC12UpdateERC20() {
 	r := newRegistry(1 + rt.Tier())
 	r.stubContracts()
 	old, nw := freshAddr("oldAddr"), freshAddr("newAddr")
-	// the replacement contract is not one that is already registered
+	// the replacement contract may be any address, the pair's own included (a degenerate update); an address that belongs
+	// to ANOTHER pair is the subject of VerifC12UpdateERC20Collision (kept apart so that the costs add)
 	for _, p := range r.pairs {
-		rt.Assume(p.GetERC20Contract() != nw)
+		rt.Assume(p.GetERC20Contract() != nw || p.GetERC20Contract() == old)
+	}
+	if nw == old {
+		rt.Reach("update-to-the-same-address")
 	}
 	multi := false
 	for _, p := range r.pairs {
@@ -265,6 +269,23 @@ func VerifC12UpdateERC20() {
 		}
 	}
 	rt.Known("H6-update-erc20-drops-extra-denominations", multi)
+	r.probeAndAct("update-erc20", func() bool { _, err := r.k.UpdateTokenPairERC20(r.ctx, old, nw); return err == nil })
+}
+
+// VerifC12UpdateERC20Collision: two registered pairs; an update of one pair's contract to the address of the other
+// must leave the registry consistent (no two pairs share an address).
+func VerifC12UpdateERC20Collision() {
+	r := newRegistry(2)
+	if len(r.pairs) < 2 {
+		return
+	}
+	r.stubContracts()
+	old, nw := r.pairs[0].GetERC20Contract(), r.pairs[1].GetERC20Contract()
+	if rt.Bool("second-to-first") {
+		old, nw = nw, old
+	}
+	rt.Reach("collision-attempted")
+	rt.Known("H13-update-erc20-to-an-address-of-another-pair", true)
 	r.probeAndAct("update-erc20", func() bool { _, err := r.k.UpdateTokenPairERC20(r.ctx, old, nw); return err == nil })
 }
 
